@@ -154,8 +154,14 @@ func registerRT(t map[string]intrinsic) {
 			panic(pathAbort{"vChoice(0)"})
 		}
 		v := ex.fresh(name, 64)
-		ex.addPC(ex.C.Cmp(OpULt, v, ex.C.Const(64, uint64(n))))
-		return ex.C.Const(64, uint64(ex.concretize(v, 0, n))), nil
+		if v.IsConst() { // fixed-model run
+			return v, nil
+		}
+		conds := make([]*Term, n)
+		for i := range conds {
+			conds[i] = ex.C.Eq(v, ex.C.Const(64, uint64(i)))
+		}
+		return ex.C.Const(64, uint64(ex.chooseFree(conds))), nil
 	}
 	rt["vAssume"] = func(ex *Exec, caller *frame, fn *ssa.Function, args []Value) (Value, *goPanic) {
 		c := args[0].(*Term)
